@@ -91,7 +91,6 @@ type gatedRun struct {
 	violation    string
 	inconclusive string
 	arrivalLog   []string
-	lateIssuers  int
 }
 
 // runGated executes op with every subgraph request parked on arrival and released in the
@@ -139,63 +138,6 @@ func runGated(gw *kit.Gateway, op opgen.Op, root *plan.SynchronousResponsePlan, 
 			}
 		}
 	}
-	leaves, _, _ := ftree.Leaves(tree)
-	// lateIssuer handles a request of a fetch that sent nothing in the ungated run (it had no
-	// items then): whether such a fetch finds items can depend on what has been merged when it
-	// runs (fetch paths without type conditions), which the property does not forbid as long as
-	// the fetch waited for its own dependencies and the response stays the same. The request
-	// is checked and answered at once; it takes no part in the release order.
-	// pathTwin: another fetch works on the same response path (paths compared without type
-	// conditions): the two see each other's merged items, so which of them finds something to
-	// send can depend on the completion order
-	pathOf := func(l *ftree.Leaf) string {
-		var sb strings.Builder
-		for _, pe := range l.Item.FetchPath {
-			sb.WriteString(strings.Join(pe.Path, ".") + "/")
-		}
-		return sb.String()
-	}
-	pathTwin := func(id int) bool {
-		l := leaves[id]
-		if l == nil {
-			return false
-		}
-		for oid, o := range leaves {
-			if oid != id && pathOf(o) == pathOf(l) {
-				return true
-			}
-		}
-		return false
-	}
-	anyTwin := func(ids []int) bool {
-		for _, id := range ids {
-			mu.Lock()
-			arrived := parked[id] != nil
-			mu.Unlock()
-			if !arrived && pathTwin(id) {
-				return true
-			}
-		}
-		return false
-	}
-	lateIssuer := func(p *parkedReq) bool {
-		l := leaves[p.id]
-		if issues[p.id] || l == nil || !pathTwin(p.id) {
-			return false
-		}
-		for _, d := range l.Deps {
-			if issues[d] && !completed[d] && gr.violation == "" {
-				gr.violation = fmt.Sprintf("request of fetch %d (%s) was issued before its dependency %d completed: completed %v; tree %s", p.id, p.req.Subgraph, d, keysInt(completed), ftree.Dump(tree))
-			}
-		}
-		gr.lateIssuers++
-		gr.arrivalLog = append(gr.arrivalLog, fmt.Sprintf("late issuer #%d %s (answered at once)", p.id, p.req.Subgraph))
-		if v, err := ref.Decode([]byte(p.req.ResponseBody)); err == nil {
-			entityKeys(v, available)
-		}
-		close(p.release)
-		return true
-	}
 	for {
 		expected := ftree.Frontier(tree, func(id int) bool { return issues[id] }, completed)
 		// wait until exactly the expected requests are parked (or Execute finished)
@@ -216,23 +158,12 @@ func runGated(gw *kit.Gateway, op opgen.Op, root *plan.SynchronousResponsePlan, 
 			}
 			select {
 			case p := <-arrivals:
-				if lateIssuer(p) {
-					continue
-				}
 				gr.arrivalLog = append(gr.arrivalLog, fmt.Sprintf("arrive #%d %s", p.id, p.req.Subgraph))
 				inFrontier := false
 				for _, id := range expected {
 					if id == p.id {
 						inFrontier = true
 					}
-				}
-				if !inFrontier && gr.violation == "" && anyTwin(expected) {
-					// an awaited fetch with a path twin may have found nothing to send under this
-					// order, so the tree has moved on: the frontier cannot be decided from outside
-					gr.inconclusive = fmt.Sprintf("an awaited fetch of %v shares its path with another fetch and may have had nothing to send", expected)
-					close(p.release)
-					releaseAll()
-					return gr
 				}
 				if !inFrontier && gr.violation == "" {
 					gr.violation = fmt.Sprintf("request of fetch %d (%s) was issued while the fetch tree does not allow it yet: completed %v, allowed in flight %v; tree %s", p.id, p.req.Subgraph, keysInt(completed), expected, ftree.Dump(tree))
@@ -264,10 +195,6 @@ func runGated(gw *kit.Gateway, op opgen.Op, root *plan.SynchronousResponsePlan, 
 			case r := <-done:
 				gr.res = r
 				if len(expected) > 0 && gr.violation == "" {
-					if anyTwin(expected) {
-						gr.inconclusive = fmt.Sprintf("an awaited fetch of %v shares its path with another fetch and had nothing to send under this order", expected)
-						return gr
-					}
 					gr.violation = fmt.Sprintf("Execute returned although fetches %v never issued their request (they did in the ungated run)", expected)
 				}
 				return gr
@@ -279,15 +206,11 @@ func runGated(gw *kit.Gateway, op opgen.Op, root *plan.SynchronousResponsePlan, 
 		}
 		if len(expected) == 0 {
 			// nothing may be in flight: Execute must finish
-		finish:
 			select {
 			case r := <-done:
 				gr.res = r
 				return gr
 			case p := <-arrivals:
-				if lateIssuer(p) {
-					goto finish
-				}
 				if gr.violation == "" {
 					gr.violation = fmt.Sprintf("request of fetch %d (%s) arrived although the tree has no fetch left to run: %s", p.id, p.req.Subgraph, ftree.Dump(tree))
 				}
@@ -411,6 +334,16 @@ func checkSched(c schedCase, o *pbt.Rec) pbt.Verdict {
 		o.Discard("not-a-synchronous-plan")
 		return pbt.OK
 	}
+	if ftree.PathTwins(sp.Response.Fetches) {
+		// two fetches on one response path see each other's merged items: which of them finds
+		// something to send (and with which entities) depends on the completion order by
+		// construction of the plan, so the set of issuing fetches - which this part needs to
+		// know the frontier - is not a function of the plan. The statement demands an order-
+		// independent response, not order-independent requests; such plans are left to the
+		// structural parts (first seen in the thorough tier: a false alarm of this part).
+		o.Discard("plan-with-path-twins(issuing-set-depends-on-order)")
+		return pbt.OK
+	}
 	leaves, _, _ := ftree.Leaves(sp.Response.Fetches)
 	for id := range issues {
 		if leaves[id] == nil {
@@ -437,14 +370,7 @@ func checkSched(c schedCase, o *pbt.Rec) pbt.Verdict {
 			}
 			return s
 		}
-		if gr.lateIssuers > 0 {
-			o.Label("fetch-with-path-twin-issued-only-under-this-order")
-		}
 		if gr.inconclusive != "" {
-			if strings.Contains(gr.inconclusive, "shares its path") {
-				o.Discard("inconclusive:path-twin-may-not-issue")
-				return pbt.OK
-			}
 			o.Discard("inconclusive:" + strings.SplitN(gr.inconclusive, " ", 3)[0])
 			return pbt.OK
 		}
